@@ -8,11 +8,13 @@ information.  An element's `oid` stands for the identity of the Python object: `
 the very same objects on the new part, it never copies them.
 
 The model mirrors the code after the repairs fixes/C15-1..4 (quarter map of the new part; a missing
-staff counts as staff 1; voices and staves in use are those of the elements themselves).
+staff counts as staff 1; voices and staves in use are those of the elements themselves), C15-7 (integer-valued
+float divisions) and C15-9 (objects that are on the timeline by their end only are transferred too).
 
 Only Lean core + Gen/ is imported.
 -/
 import PartituraModel.Gen.Classes
+import PartituraModel.Gen.C15Tables
 
 namespace Model.Merge
 
@@ -35,12 +37,12 @@ def withStaff (c : Nat) : Bool :=
 inductive Mode | voice | staff | auto
   deriving DecidableEq, Repr
 
-/-- `el_to_discard` of `merge_parts` (the two literal tuples of the code) -/
+/-- `el_to_discard` of `merge_parts`: the class tuples of the live source, per mode
+(Gen/C15Tables.lean, regenerated from the source by harness/translate_c15.py on every run) -/
 def discardNames : Mode → List String
-  | .voice => ["Barline", "Page", "System", "Clef", "Measure", "TimeSignature", "KeySignature",
-               "DaCapo", "Fine", "Fermata", "Ending", "Tempo"]
-  | _ => ["Barline", "Page", "System", "Measure", "TimeSignature", "KeySignature",
-          "DaCapo", "Fine", "Fermata", "Ending", "Tempo"]
+  | .voice => Gen.C15.discardVoice
+  | .staff => Gen.C15.discardStaff
+  | .auto => Gen.C15.discardAuto
 
 /-- `isinstance(e, el_to_discard)` -/
 def discard (m : Mode) (c : Nat) : Bool := (discardNames m).any fun n => isSub c (classId n)
@@ -60,13 +62,21 @@ structure Elem where
   pitch : Option Int        -- `e.midi_pitch` (Note only)
   tiePrev : Bool            -- `e.tie_prev is not None`
   chain : List Nat          -- oids of `e.tie_next_notes`
+  refs : List Nat := []     -- oids of the timed objects the attributes of `e` refer to (ties, slurs, tuplets,
+                            -- beam, grace chain, fermata; start / end notes of a slur or tuplet; notes of a beam)
   deriving DecidableEq, Repr
 
 structure APart where
   pid : Nat                 -- identity of the Part object
   divs : Nat                -- the single entry of `_quarter_durations`
   elems : List Elem         -- `list(part.iter_all())`
+  tails : List Elem := []   -- objects that are on the timeline by their end only (`e.start is None`, e.g. a slur
+                            -- whose start is not in the score), as `part.iter_all(mode="ending")` yields them;
+                            -- their `start` field is not used
   deriving DecidableEq, Repr
+
+/-- every object registered on the part: by its start (and perhaps its end), or by its end only -/
+def allElems (p : APart) : List Elem := p.elems ++ p.tails
 
 /-- a `Part` or a `PartGroup` with its children -/
 inductive Tree where
@@ -115,11 +125,11 @@ def maxOr1 : List Nat → Nat
 
 /-- voices in use: those of every GenericNote (notes, grace notes, unpitched notes, rests) -/
 def voicesOf (p : APart) : List Nat :=
-  p.elems.filterMap fun e => if isGeneric e.cls then e.voice else none
+  (allElems p).filterMap fun e => if isGeneric e.cls then e.voice else none
 
 /-- staves in use: those of every element that carries a staff; a missing staff is staff 1 -/
 def stavesOf (p : APart) : List Nat :=
-  (p.elems.filter fun e => withStaff e.cls).map fun e => e.staff.getD 1
+  ((allElems p).filter fun e => withStaff e.cls).map fun e => e.staff.getD 1
 
 def uVoices (p : APart) : List Nat := uniq (voicesOf p)
 def uStaves (p : APart) : List Nat := uniq (stavesOf p)
@@ -180,11 +190,23 @@ def mergeFrom (m : Mode) (L : Nat) : Bool → Nat → Nat → Nat → List APart
     partOut m (ctxOf L first vo so np p) p
       ++ mergeFrom m L false (vo + maxVoice p) (so + maxStaff p) (np + nStaves p) ps
 
+/-- the kept, rescaled (end only) and renumbered end-only objects of one part -/
+def tailOut (m : Mode) (c : Ctx) (p : APart) : List Elem :=
+  (p.tails.filter (keep m c.first)).map (xform m c)
+
+/-- the same loop, for the objects that only have an end (they go through the same loop body, after the elements
+of their part) -/
+def tailsFrom (m : Mode) (L : Nat) : Bool → Nat → Nat → Nat → List APart → List Elem
+  | _, _, _, _, [] => []
+  | first, vo, so, np, p :: ps =>
+    tailOut m (ctxOf L first vo so np p) p
+      ++ tailsFrom m L false (vo + maxVoice p) (so + maxStaff p) (np + nStaves p) ps
+
 /-- all dictionary lookups of the loop succeed -/
 def keysFrom (m : Mode) (L : Nat) : Bool → Nat → Nat → Nat → List APart → Bool
   | _, _, _, _, [] => true
   | first, vo, so, np, p :: ps =>
-    ((p.elems.filter (keep m first)).all (keysOk (ctxOf L first vo so np p)))
+    (((allElems p).filter (keep m first)).all (keysOk (ctxOf L first vo so np p)))
       && keysFrom m L false (vo + maxVoice p) (so + maxStaff p) (np + nStaves p) ps
 
 /-- order in which `iter_all()` of the new part yields: by time point, then by class walk, then by insertion -/
@@ -201,7 +223,7 @@ def isort (le : Elem → Elem → Bool) (l : List Elem) : List Elem := l.foldr (
 
 /-- every GenericNote carries a voice (precondition of the property; the code raises otherwise) -/
 def voicesGiven (ps : List APart) : Bool :=
-  ps.all fun p => p.elems.all fun e => !isGeneric e.cls || e.voice.isSome
+  ps.all fun p => (allElems p).all fun e => !isGeneric e.cls || e.voice.isSome
 
 inductive Result where
   | same (p : APart)                       -- the single input part itself
@@ -221,6 +243,30 @@ def mergeParts (m : Mode) (parts : List APart) : Option Result :=
     else none
 
 def merge (m : Mode) (s : Shape) : Option Result := mergeParts m (iterParts s)
+
+/-- the end-only objects of the merged part (when `mergeParts m parts` is a merged part): `end` rescaled, voice and
+staff renumbered like those of the elements; in order of insertion -/
+def mergedTails (m : Mode) (parts : List APart) : List Elem :=
+  tailsFrom m (lcmList (parts.map (·.divs))) true 0 0 0 parts
+
+/-- `load_score_as_part(filename)`: `merge_parts(load_score(filename).parts)` with the default `reassign="voice"`;
+`s` is the part structure of the loaded score (`Score.parts` is `list(iter_parts(structure))`) -/
+def loadScoreAsPart (s : Shape) : Option Result := mergeParts .voice (iterParts s)
+
+/-- the divisions value the model sees for a part with `_quarter_durations == qds`: the single entry, and 0 (which
+`mergeParts` rejects, as the code raises "Merging parts with multiple divisions is not supported") otherwise -/
+def divsOf : List Nat → Nat
+  | [d] => d
+  | _ => 0
+
+-- ---------------------------------------------------------------- references between elements
+
+/-- an object with identity `k` is registered on the part -/
+def hasOid (es : List Elem) (k : Nat) : Bool := es.any fun e => e.oid == k
+
+/-- the references that leave the part: (oid of the referring element, oid of the missing object) -/
+def dangling (es : List Elem) : List (Nat × Nat) :=
+  es.flatMap fun e => (e.refs.filter fun r => !hasOid es r).map fun r => (e.oid, r)
 
 -- ---------------------------------------------------------------- closed form of the loop state (used in statements)
 
